@@ -19,6 +19,7 @@ pub async fn run(op: &str, a: &[String]) -> Option<Vec<String>> {
         "bind" => bind(a).await,
         "idle" => idle(a).await,
         "keepalive" => keepalive(a).await,
+        "reload" => reload(a).await,
         "alpn" => alpn(a).await,
         _ => return None,
     })
@@ -685,6 +686,186 @@ async fn keepalive(a: &[String]) -> Vec<String> {
 }
 
 // ---------------------------------------------------------------------------------------------
+// reload  rebind
+//
+// A server with identity A and an established session S1 (client pinned to A). The application
+// calls `reload_config(config with identity B, rebind)`. Then: a new client pinned to B connects,
+// a new client pinned to A connects, and S1 carries a datagram and a stream in both directions.
+// obs: `reload=<ok|err>` `new_b=<established|…>` `new_a=<established|…>` `old_dgram=<true|false>`
+// `old_stream=<true|false>` `old_state=<alive|…>`.
+
+async fn reload(a: &[String]) -> Vec<String> {
+    let rebind = arg(a, 0) == "true";
+    let fail = |e: String| {
+        vec![
+            "reload=-".to_string(),
+            "new_b=-".into(),
+            "new_a=-".into(),
+            "old_dgram=-".into(),
+            "old_stream=-".into(),
+            "old_state=-".into(),
+            format!("err={e}"),
+        ]
+    };
+    let rt = match TestRt::new(RT) {
+        Ok(rt) => rt,
+        Err(e) => return fail(e),
+    };
+    let (id_a, id_b) = match (self_signed(), self_signed()) {
+        (Ok(x), Ok(y)) => (x, y),
+        _ => return fail("identity".into()),
+    };
+    let hash_a = id_a.certificate_chain().as_slice()[0].hash();
+    let hash_b = id_b.certificate_chain().as_slice()[0].hash();
+    let built = rt
+        .run(async move {
+            trap_sync(move || {
+                let scfg = ServerConfig::builder()
+                    .with_bind_config(IpBindConfig::LocalV4, 0)
+                    .with_identity(id_a)
+                    .build();
+                Endpoint::server(scfg).map_err(|e| format!("bind:{:?}", e.kind()))
+            })
+        })
+        .await;
+    let sep: Arc<ServerEp> = match built {
+        Ok(Ok(Ok(ep))) => Arc::new(ep),
+        Ok(Ok(Err(e))) | Ok(Err(e)) | Err(e) => return fail(e),
+    };
+    let port = match sep.local_addr() {
+        Ok(a) => a.port(),
+        Err(e) => return fail(format!("local_addr:{:?}", e.kind())),
+    };
+    // the server application: accepts every session and keeps it
+    let sep2 = sep.clone();
+    let (tx, mut rx) = tokio::sync::mpsc::unbounded_channel::<Connection>();
+    let acceptor = rt.spawn(async move {
+        loop {
+            match accept_session(&sep2).await {
+                Ok(c) => {
+                    let _ = tx.send(c);
+                }
+                Err(_) => tokio::time::sleep(Duration::from_millis(20)).await,
+            }
+        }
+    });
+    let connect_with = |hash: Sha256Digest, port: u16| {
+        let rt = &rt;
+        async move {
+            let r = rt
+                .run(async move {
+                    let cfg = ClientConfig::builder()
+                        .with_bind_config(IpBindConfig::LocalV4)
+                        .with_server_certificate_hashes([hash])
+                        .build();
+                    let ep = Endpoint::client(cfg).map_err(|e| format!("bind:{:?}", e.kind()))?;
+                    match bounded_ms(4000, ep.connect(format!("https://127.0.0.1:{port}/"))).await {
+                        None => Err("timeout".to_string()),
+                        Some(Ok(c)) => Ok((ep, c)),
+                        Some(Err(e)) => Err(canon::connecting_err(&e)),
+                    }
+                })
+                .await;
+            match r {
+                Ok(x) => x,
+                Err(e) => Err(e),
+            }
+        }
+    };
+    let old = match connect_with(hash_a.clone(), port).await {
+        Ok(x) => x,
+        Err(e) => {
+            acceptor.abort();
+            return fail(format!("first:{e}"));
+        }
+    };
+    let old_server = match bounded_ms(3000, rx.recv()).await {
+        Some(Some(c)) => c,
+        _ => {
+            acceptor.abort();
+            return fail("first:server_side".into());
+        }
+    };
+
+    // reload
+    let sep3 = sep.clone();
+    let reloaded = rt
+        .run(async move {
+            trap_sync(move || {
+                let scfg = ServerConfig::builder()
+                    .with_bind_config(IpBindConfig::LocalV4, 0)
+                    .with_identity(id_b)
+                    .build();
+                sep3.reload_config(scfg, rebind).map_err(|e| format!("{:?}", e.kind()))
+            })
+        })
+        .await;
+    let reload_s = match reloaded {
+        Ok(Ok(Ok(()))) => "ok".to_string(),
+        Ok(Ok(Err(e))) => format!("err:{e}"),
+        Ok(Err(e)) | Err(e) => e,
+    };
+    let new_port = sep.local_addr().map(|a| a.port()).unwrap_or(port);
+    let form = |r: &Result<(Arc<ClientEp>, Connection), String>| match r {
+        Ok(_) => "established".to_string(),
+        Err(e) => e.clone(),
+    };
+    let nb = connect_with(hash_b, new_port).await.map(|(e, c)| (Arc::new(e), c));
+    let na = connect_with(hash_a, new_port).await.map(|(e, c)| (Arc::new(e), c));
+    let (new_b, new_a) = (form(&nb), form(&na));
+
+    // the old session still works in both directions
+    let oc = old.1.clone();
+    let os = old_server.clone();
+    let old_ok = rt
+        .run(async move {
+            let dg = match oc.send_datagram(b"still-here") {
+                Ok(()) => matches!(bounded_ms(2000, os.receive_datagram()).await, Some(Ok(d)) if &d[..] == b"still-here"),
+                Err(_) => false,
+            };
+            let st = async {
+                let mut s = bounded_ms(2000, os.open_uni()).await?.ok()?.await.ok()?;
+                s.write_all(b"server-to-client").await.ok()?;
+                s.finish().await.ok()?;
+                let mut r = bounded_ms(2000, oc.accept_uni()).await?.ok()?;
+                let mut buf = vec![0u8; 64];
+                let mut got = vec![];
+                loop {
+                    match bounded_ms(2000, r.read(&mut buf)).await? {
+                        Ok(Some(n)) => got.extend_from_slice(&buf[..n]),
+                        Ok(None) => break,
+                        Err(_) => return None,
+                    }
+                }
+                Some(got == b"server-to-client")
+            }
+            .await
+            .unwrap_or(false);
+            let state = match oc.quic_connection().close_reason() {
+                None => "alive".to_string(),
+                Some(e) => canon::quinn_conn_err(&e),
+            };
+            (dg, st, state)
+        })
+        .await;
+    acceptor.abort();
+    let (dg, st, state) = match old_ok {
+        Ok(x) => x,
+        Err(e) => (false, false, e),
+    };
+    drop(nb);
+    drop(na);
+    vec![
+        format!("reload={reload_s}"),
+        format!("new_b={new_b}"),
+        format!("new_a={new_a}"),
+        format!("old_dgram={dg}"),
+        format!("old_stream={st}"),
+        format!("old_state={state}"),
+    ]
+}
+
+// ---------------------------------------------------------------------------------------------
 // idle  which ms
 
 async fn idle(a: &[String]) -> Vec<String> {
@@ -899,6 +1080,9 @@ fn gen_c20(emit: &mut dyn FnMut(&str, Vec<String>)) {
         ] {
             emit("idle", vec![s(which), s(ms)]);
         }
+    }
+    for rebind in ["false", "true"] {
+        emit("reload", vec![s(rebind)]);
     }
     for which in ["server", "client"] {
         emit("alpn", vec![s(which)]);
